@@ -264,7 +264,17 @@ struct Facts {
     long long mod_num, mod_den;
     int mod_rep;                // D1 % D2 (integers)
     int div_type;               // D1 / D2
+    unsigned member_mask;       // which of the member operations below exist for this group (same types only)
+    unsigned member_types;      // bit b set: the result type of member operation b is exactly what [time.duration] says
 };
+// member operations of duration (0..9) and time_point (10..15); 0..7 and 10..13 must return *this by reference
+// (duration& / time_point&), the postfix forms (8, 9, 14, 15) return the old value by value
+constexpr int NMEMBER = 16;
+char const* const MEMBER_NAME[NMEMBER] = {"++d", "--d", "d += duration", "d -= duration", "d *= rep", "d /= rep", "d %= rep", "d %= duration", "d++", "d--", "tp += duration", "tp -= duration", "++tp", "--tp", "tp++", "tp--"};
+constexpr unsigned MEMBER_BY_REF = 0x3CFFU; // bits 0..7 and 10..13
+constexpr int NCHAIN = 20;
+char const* const CHAIN_NAME[NCHAIN] = {"(d += p) -= o", "++(d += p)", "--(d -= p)", "(d *= 3) -= p", "(d /= 3) += p", "(++d) += p", "(--d) -= p", "((d += p) -= o) *= 3", "auto&& r = (d += p); ++r", "(d %= p) += o",
+    "auto&& r = (d %= p); ++r", "(d %= 3) -= o", "value of d++", "d after d++", "value of d--", "d after d--", "(tp += p) -= o", "++(tp += p)", "--(tp -= p)", "auto&& r = (tp += p); ++r"};
 
 // thin wrappers; every function takes/returns Num so that the driver is not a template
 struct OpsTable {
@@ -284,6 +294,7 @@ struct OpsTable {
     void (*tp_misc)(Num, Num*);           // time_since_epoch, default, min, max
     void (*tp_members)(Num, Num, Num*);   // += -= ++ -- (10 values)
     void (*unary)(int, Num, Num, Num*);   // see driver
+    void (*members)(Num, Num, Num*, unsigned*); // chained member operations (NCHAIN final values) and the identity bits
 };
 
 template <typename L, typename R1, typename R2, int I, int J, bool WithTP>
@@ -455,9 +466,190 @@ struct Ops {
         }
     }
 
+    // does the expression denote the object itself (binds prvalues too, so that a by-value return is a run-time
+    // finding and not a compile error)
+    template <typename X, typename Y>
+    static auto same_object(X&& r, Y& obj) -> bool
+    {
+        return static_cast<void const*>(std::addressof(r)) == static_cast<void const*>(std::addressof(obj));
+    }
+    static void members(Num a, Num s, Num* out, unsigned* ident)
+    {
+        if constexpr (same12) {
+            D1 const p = d1(s);
+            D1 const o{static_cast<R1>(5)};
+            R1 const k = static_cast<R1>(3);
+            unsigned id = 0;
+            // (b) the returned reference is the object
+            {
+                D1 d{d1(a)};
+                if (same_object(++d, d)) { id |= 1U << 0; }
+                if (same_object(--d, d)) { id |= 1U << 1; }
+                if (same_object(d += p, d)) { id |= 1U << 2; }
+                if (same_object(d -= p, d)) { id |= 1U << 3; }
+                if (same_object(d *= k, d)) { id |= 1U << 4; }
+                if (same_object(d /= k, d)) { id |= 1U << 5; }
+                if constexpr (is_int) {
+                    if (same_object(d %= k, d)) { id |= 1U << 6; }
+                    if (same_object(d %= p, d)) { id |= 1U << 7; }
+                }
+            }
+            // (c) chains: the final state of d
+            auto fin = [&](int i, D1 const& d) { out[i] = put(d.count()); };
+            {
+                D1 d{d1(a)};
+                (d += p) -= o;
+                fin(0, d);
+            }
+            {
+                D1 d{d1(a)};
+                ++(d += p);
+                fin(1, d);
+            }
+            {
+                D1 d{d1(a)};
+                --(d -= p);
+                fin(2, d);
+            }
+            {
+                D1 d{d1(a)};
+                (d *= k) -= p;
+                fin(3, d);
+            }
+            {
+                D1 d{d1(a)};
+                (d /= k) += p;
+                fin(4, d);
+            }
+            {
+                D1 d{d1(a)};
+                (++d) += p;
+                fin(5, d);
+            }
+            {
+                D1 d{d1(a)};
+                (--d) -= p;
+                fin(6, d);
+            }
+            {
+                D1 d{d1(a)};
+                ((d += p) -= o) *= k;
+                fin(7, d);
+            }
+            {
+                D1 d{d1(a)};
+                auto&& r = (d += p);
+                ++r;
+                fin(8, d);
+            }
+            if constexpr (is_int) {
+                {
+                    D1 d{d1(a)};
+                    (d %= p) += o;
+                    fin(9, d);
+                }
+                {
+                    D1 d{d1(a)};
+                    auto&& r = (d %= p);
+                    ++r;
+                    fin(10, d);
+                }
+                {
+                    D1 d{d1(a)};
+                    (d %= k) -= o;
+                    fin(11, d);
+                }
+            }
+            {
+                D1 d{d1(a)};
+                auto const old = d++;
+                fin(12, old);
+                fin(13, d);
+            }
+            {
+                D1 d{d1(a)};
+                auto const old = d--;
+                fin(14, old);
+                fin(15, d);
+            }
+            if constexpr (WithTP) {
+                {
+                    T1 t{d1(a)};
+                    if (same_object(t += p, t)) { id |= 1U << 10; }
+                    if (same_object(t -= p, t)) { id |= 1U << 11; }
+                    if (same_object(++t, t)) { id |= 1U << 12; }
+                    if (same_object(--t, t)) { id |= 1U << 13; }
+                }
+                {
+                    T1 t{d1(a)};
+                    (t += p) -= o;
+                    fin(16, t.time_since_epoch());
+                }
+                {
+                    T1 t{d1(a)};
+                    ++(t += p);
+                    fin(17, t.time_since_epoch());
+                }
+                {
+                    T1 t{d1(a)};
+                    --(t -= p);
+                    fin(18, t.time_since_epoch());
+                }
+                {
+                    T1 t{d1(a)};
+                    auto&& r = (t += p);
+                    ++r;
+                    fin(19, t.time_since_epoch());
+                }
+            }
+            *ident = id;
+        } else {
+            (void)a;
+            (void)s;
+            (void)out;
+            *ident = 0;
+        }
+    }
+
+    static constexpr auto member_facts(Facts& f) -> void
+    {
+        if constexpr (same12) {
+            using DR = D1&;
+            using DC = D1 const&;
+            unsigned m = 0x33FU; // ++ -- += -= *= /= and the postfix forms
+            unsigned t = 0;
+            t |= std::is_same_v<decltype(++std::declval<DR>()), D1&> ? 1U << 0 : 0U;
+            t |= std::is_same_v<decltype(--std::declval<DR>()), D1&> ? 1U << 1 : 0U;
+            t |= std::is_same_v<decltype(std::declval<DR>() += std::declval<DC>()), D1&> ? 1U << 2 : 0U;
+            t |= std::is_same_v<decltype(std::declval<DR>() -= std::declval<DC>()), D1&> ? 1U << 3 : 0U;
+            t |= std::is_same_v<decltype(std::declval<DR>() *= std::declval<R1 const&>()), D1&> ? 1U << 4 : 0U;
+            t |= std::is_same_v<decltype(std::declval<DR>() /= std::declval<R1 const&>()), D1&> ? 1U << 5 : 0U;
+            if constexpr (is_int) {
+                m |= 0xC0U;
+                t |= std::is_same_v<decltype(std::declval<DR>() %= std::declval<R1 const&>()), D1&> ? 1U << 6 : 0U;
+                t |= std::is_same_v<decltype(std::declval<DR>() %= std::declval<DC>()), D1&> ? 1U << 7 : 0U;
+            }
+            t |= std::is_same_v<decltype(std::declval<DR>()++), D1> ? 1U << 8 : 0U;
+            t |= std::is_same_v<decltype(std::declval<DR>()--), D1> ? 1U << 9 : 0U;
+            if constexpr (WithTP) {
+                using TR = T1&;
+                m |= 0xFC00U;
+                t |= std::is_same_v<decltype(std::declval<TR>() += std::declval<DC>()), T1&> ? 1U << 10 : 0U;
+                t |= std::is_same_v<decltype(std::declval<TR>() -= std::declval<DC>()), T1&> ? 1U << 11 : 0U;
+                t |= std::is_same_v<decltype(++std::declval<TR>()), T1&> ? 1U << 12 : 0U;
+                t |= std::is_same_v<decltype(--std::declval<TR>()), T1&> ? 1U << 13 : 0U;
+                t |= std::is_same_v<decltype(std::declval<TR>()++), T1> ? 1U << 14 : 0U;
+                t |= std::is_same_v<decltype(std::declval<TR>()--), T1> ? 1U << 15 : 0U;
+            }
+            f.member_mask  = m;
+            f.member_types = t;
+        }
+    }
+
     static constexpr auto facts() -> Facts
     {
         Facts f{};
+        member_facts(f);
         f.ct_num        = CT::period::num;
         f.ct_den        = CT::period::den;
         f.ct_rep        = tkind<RC>;
@@ -486,7 +678,7 @@ struct Ops {
         f.div_type = tkind<decltype(std::declval<D1>() / std::declval<D2>())>;
         return f;
     }
-    static constexpr OpsTable table{facts(), &cast, &floor, &ceil, &round, &common1, &common2, &convert, &plus_minus, &div_mod, &cmp, &tp_cmp, &tp_fcr, &tp_misc, &tp_members, &unary};
+    static constexpr OpsTable table{facts(), &cast, &floor, &ceil, &round, &common1, &common2, &convert, &plus_minus, &div_mod, &cmp, &tp_cmp, &tp_fcr, &tp_misc, &tp_members, &unary, &members};
 };
 
 // ------------------------------------------------------------------------------------------------ group descriptor
@@ -581,8 +773,8 @@ auto round_dom(GroupDesc const& m, Val v, i128 t) -> bool
 }
 
 // ------------------------------------------------------------------------------------------------ counters
-enum SubId { S_CAST, S_FLOOR, S_CEIL, S_ROUND, S_COMMON, S_CONVERT, S_UNARY, S_ARITH, S_CMP, S_TP, S_ALIAS, S_COUNT };
-char const* const SUBS[S_COUNT] = {"cast", "floor", "ceil", "round", "common", "convert", "unary", "arith", "cmp", "time_point", "alias"};
+enum SubId { S_CAST, S_FLOOR, S_CEIL, S_ROUND, S_COMMON, S_CONVERT, S_UNARY, S_ARITH, S_CMP, S_TP, S_ALIAS, S_MEMBERS, S_COUNT };
+char const* const SUBS[S_COUNT] = {"cast", "floor", "ceil", "round", "common", "convert", "unary", "arith", "cmp", "time_point", "alias", "members"};
 enum LabId { L_NEG, L_NONINT, L_TIE, L_CAST_DOM, L_ROUND_DOM, L_ARITH_DOM, L_BIG, L_COUNT };
 char const* const LABS[L_COUNT] = {"count.negative", "pair.non_integer_ratio", "round.exact_tie", "cast.in_domain", "floor_ceil_round.in_domain", "arith.in_domain", "count.beyond_2^31"};
 struct Tally { // plain counters, flushed once per group (vf::eval / vf::label cost a map lookup per call)
@@ -988,9 +1180,52 @@ void second_counts(GroupDesc const& g, Val v, i64 (&out)[8], int& n)
     add(0);
 }
 
+// member operations: result types (compile-time facts reported here), identity of the returned reference, chains
+void chk_members(GroupDesc const& g, Val v, i64 c2)
+{
+    if (!g.same12()) { return; }
+    Case k = mk(g, "members", v, c2);
+    vf::Flight<Case> fl("members", k);
+    auto const& fe = g.e->facts;
+    auto const& fs = g.s->facts;
+    REQUIRE(k, fe.member_mask == fs.member_mask, "harness bug: member operation sets of etl and std differ");
+#ifndef C12_SKIP_MEMBER_TYPES // (test hook: lets the identity and chain checks below be exercised on their own)
+    for (int b = 0; b < NMEMBER; ++b) {
+        if (((fe.member_mask >> b) & 1U) == 0) { continue; }
+        bool const byref = ((MEMBER_BY_REF >> b) & 1U) != 0;
+        REQUIRE(k, ((fs.member_types >> b) & 1U) != 0, std::string("harness bug: std::chrono result type of ") + MEMBER_NAME[b] + " is not the expected one");
+        REQUIRE(k, ((fe.member_types >> b) & 1U) != 0,
+            std::string("decltype(") + MEMBER_NAME[b] + ") for " + g.n1() + " is not " + (byref ? (b < 10 ? "duration&" : "time_point&") : (b < 10 ? "duration (the old value, by value)" : "time_point (the old value, by value)"))
+                + " as in std::chrono");
+    }
+#endif
+    int const K = g.k1;
+    if (c2 == 0 || abs128(v.n) > 100000000 || abs128(c2) > 100000000) { return; }
+    Num const a = v.num(K);
+    Num const s = Val{c2, 0}.num(K);
+    Num e[NCHAIN], r[NCHAIN];
+    unsigned ie = 0, is = 0;
+    g.e->members(a, s, e, &ie);
+    g.s->members(a, s, r, &is);
+    unsigned const want = fe.member_mask & MEMBER_BY_REF;
+    REQUIRE(k, is == want, "harness bug: std::chrono member operations do not return the object");
+    for (int b = 0; b < NMEMBER; ++b) {
+        if (((want >> b) & 1U) != 0) {
+            REQUIRE(k, ((ie >> b) & 1U) != 0, std::string("the result of ") + MEMBER_NAME[b] + " is not the object it was applied to (&(" + MEMBER_NAME[b] + ") != &object) for " + g.n1() + "(" + nstr(K, a) + "), operand " + nstr(K, s));
+        }
+    }
+    for (int i = 0; i < NCHAIN; ++i) {
+        bool const applies = i < 9 || (i >= 12 && i < 16) || (i >= 9 && i < 12 && K != 2) || (i >= 16 && g.with_tp);
+        if (!applies) { continue; }
+        REQUIRE(k, nsame(K, e[i], r[i]), std::string("chained member operations: ") + CHAIN_NAME[i] + " with d = " + g.n1() + "(" + nstr(K, a) + "), p = " + nstr(K, s) + ", o = 5: etl leaves " + nstr(K, e[i]) + ", std::chrono " + nstr(K, r[i]));
+    }
+    ++g_t.n[S_MEMBERS];
+}
+
 void run_one(GroupDesc const& g, int sub, Val v, i64 c2)
 {
     switch (sub) {
+    case S_MEMBERS: chk_members(g, v, c2); break;
     case S_CAST: chk_cast(g, v); break;
     case S_FLOOR: chk_fcr(g, v, 0); break;
     case S_CEIL: chk_fcr(g, v, 1); break;
@@ -1023,6 +1258,7 @@ void run_all(GroupDesc const& g, Val v)
         if (t < 2 && g.with_tp) { chk_tp(g, v, cs[t], t == 0); }
         if (t == 0 || t == 3) { chk_common(g, v, cs[t]); }
         chk_unary(g, v, cs[t]);
+        chk_members(g, v, cs[t]);
     }
     lab(L_NEG, v.n < 0);
     lab(L_NONINT, g.D != 1);
@@ -1211,6 +1447,76 @@ void aliases(int only)
                        && decltype(1.5_ns)::period::den == 1000000000),
             "floating chrono literal has the wrong period");
         vf::eval("alias");
+    }
+    // duration_values<Rep>::zero / min / max for integer and floating reps
+    if (only < 0 || only == 102) {
+        Case k{"alias", 0, 0, 0, 102, 0, 0};
+        vf::Flight<Case> fl("alias", k);
+        auto dv = [&]<typename R>(char const* name) -> std::string {
+            auto const ez = static_cast<long double>(ec::duration_values<R>::zero());
+            auto const en = static_cast<long double>(ec::duration_values<R>::min());
+            auto const ex = static_cast<long double>(ec::duration_values<R>::max());
+            auto const sz = static_cast<long double>(sc::duration_values<R>::zero());
+            auto const sn = static_cast<long double>(sc::duration_values<R>::min());
+            auto const sx = static_cast<long double>(sc::duration_values<R>::max());
+            bool const types = std::is_same_v<decltype(ec::duration_values<R>::zero()), R> && std::is_same_v<decltype(ec::duration_values<R>::min()), R> && std::is_same_v<decltype(ec::duration_values<R>::max()), R>;
+            if (ez == sz && en == sn && ex == sx && types) { return ""; }
+            char b[400];
+            std::snprintf(b, sizeof b, "duration_values<%s>::zero/min/max: etl %Lg %Lg %Lg, std::chrono %Lg %Lg %Lg%s", name, ez, en, ex, sz, sn, sx, types ? "" : " (or a result type is not Rep)");
+            return b;
+        };
+        for (auto const& d : {dv.operator()<std::int16_t>("int16"), dv.operator()<i32>("int32"), dv.operator()<i64>("int64"), dv.operator()<long long>("long long"), dv.operator()<unsigned>("unsigned"),
+                 dv.operator()<float>("float"), dv.operator()<f64>("double"), dv.operator()<long double>("long double")}) {
+            REQUIRE(k, d.empty(), d);
+        }
+        // duration<Rep>::zero/min/max for reps that the period grid does not instantiate
+        auto dm = [&]<typename R>(char const* name) -> std::string {
+            using E = ec::duration<R, etl::ratio<1, 50>>;
+            using S = sc::duration<R, std::ratio<1, 50>>;
+            bool const ok = static_cast<long double>(E::zero().count()) == static_cast<long double>(S::zero().count()) && static_cast<long double>(E::min().count()) == static_cast<long double>(S::min().count())
+                         && static_cast<long double>(E::max().count()) == static_cast<long double>(S::max().count()) && std::is_same_v<decltype(E::zero()), E> && std::is_same_v<decltype(E::min()), E> && std::is_same_v<decltype(E::max()), E>;
+            return ok ? std::string() : std::string("duration<") + name + ",ratio<1,50>>::zero()/min()/max() differ from std::chrono (values " + std::to_string(static_cast<long double>(E::zero().count())) + " "
+                                            + std::to_string(static_cast<long double>(E::min().count())) + " " + std::to_string(static_cast<long double>(E::max().count())) + ")";
+        };
+        for (auto const& d : {dm.operator()<std::int16_t>("int16"), dm.operator()<i32>("int32"), dm.operator()<i64>("int64"), dm.operator()<float>("float"), dm.operator()<f64>("double"), dm.operator()<long double>("long double")}) {
+            REQUIRE(k, d.empty(), d);
+        }
+        vf::eval("alias");
+        vf::nontrivial_count();
+    }
+    // every literal suffix, integer and floating form: count, period and kind of rep against std::chrono_literals
+    {
+        struct Lit {
+            char const* text;
+            long double ec, sc;
+            long long en, ed, sn, sd;
+            bool efloat, sfloat;
+        };
+#define C12_LIT(E, S) Lit{#E, static_cast<long double>((E).count()), static_cast<long double>((S).count()), decltype(E)::period::num, decltype(E)::period::den, decltype(S)::period::num, decltype(S)::period::den, std::is_floating_point_v<decltype(E)::rep>, std::is_floating_point_v<decltype(S)::rep>}
+        Lit const lits[][8] = {
+            {C12_LIT(0_h, 0h), C12_LIT(1_h, 1h), C12_LIT(12_h, 12h), C12_LIT(596523_h, 596523h), C12_LIT(0.0_h, 0.0h), C12_LIT(1.5_h, 1.5h), C12_LIT(0.001_h, 0.001h), C12_LIT(123456.789_h, 123456.789h)},
+            {C12_LIT(0_min, 0min), C12_LIT(1_min, 1min), C12_LIT(12_min, 12min), C12_LIT(35791394_min, 35791394min), C12_LIT(0.0_min, 0.0min), C12_LIT(1.5_min, 1.5min), C12_LIT(0.001_min, 0.001min), C12_LIT(123456.789_min, 123456.789min)},
+            {C12_LIT(0_s, 0s), C12_LIT(1_s, 1s), C12_LIT(12_s, 12s), C12_LIT(9000000000_s, 9000000000s), C12_LIT(0.0_s, 0.0s), C12_LIT(1.5_s, 1.5s), C12_LIT(0.001_s, 0.001s), C12_LIT(123456.789_s, 123456.789s)},
+            {C12_LIT(0_ms, 0ms), C12_LIT(1_ms, 1ms), C12_LIT(12_ms, 12ms), C12_LIT(9000000000_ms, 9000000000ms), C12_LIT(0.0_ms, 0.0ms), C12_LIT(1.5_ms, 1.5ms), C12_LIT(0.001_ms, 0.001ms), C12_LIT(123456.789_ms, 123456.789ms)},
+            {C12_LIT(0_us, 0us), C12_LIT(1_us, 1us), C12_LIT(12_us, 12us), C12_LIT(9000000000_us, 9000000000us), C12_LIT(0.0_us, 0.0us), C12_LIT(1.5_us, 1.5us), C12_LIT(0.001_us, 0.001us), C12_LIT(123456.789_us, 123456.789us)},
+            {C12_LIT(0_ns, 0ns), C12_LIT(1_ns, 1ns), C12_LIT(12_ns, 12ns), C12_LIT(9000000000_ns, 9000000000ns), C12_LIT(0.0_ns, 0.0ns), C12_LIT(1.5_ns, 1.5ns), C12_LIT(0.001_ns, 0.001ns), C12_LIT(123456.789_ns, 123456.789ns)},
+        };
+#undef C12_LIT
+        int suffix = 0;
+        for (auto const& row : lits) {
+            int const me = 110 + suffix++;
+            if (only >= 0 && only != me) { continue; }
+            Case k{"alias", 0, 0, 0, me, 0, 0};
+            vf::Flight<Case> fl("alias", k);
+            for (auto const& l : row) {
+                char b[400];
+                std::snprintf(b, sizeof b, "chrono literal %s: etl count %Lg period %lld/%lld %s rep, std::chrono count %Lg period %lld/%lld %s rep", l.text, l.ec, l.en, l.ed, l.efloat ? "floating" : "integer", l.sc, l.sn, l.sd,
+                    l.sfloat ? "floating" : "integer");
+                REQUIRE(k, l.ec == l.sc && l.en == l.sn && l.ed == l.sd && l.efloat == l.sfloat, b);
+            }
+            vf::eval("alias");
+            vf::nontrivial_count();
+        }
     }
     // one mean month is 1/12 mean year (uses the aliases in arithmetic, not only their period members)
     if (only < 0 || only == 101) {
